@@ -51,7 +51,7 @@ def REQUIRED(tier):
 def _required(tier):
     return ["ops:seek_set", "ops:seek_cur", "ops:cread", "ops:creadinto", "position_checks", "content_checks",
             "regime:read_spans_two_boundaries", "regime:seek_back_over_boundary", "regime:creadinto_hits_end",
-            "regime:cread_past_end_raises", "regime:position_exactly_at_boundary", "read_block:in_range", "read_block:rejected", "regime:member_file_with_trailing_partial_sample", "regime:file_listed_twice", "regime:relative_names_then_chdir", "giant_stream_ops", "regime:members_not_in_time_order"]
+            "regime:cread_past_end_raises", "regime:position_exactly_at_boundary", "read_block:in_range", "read_block:rejected", "regime:member_file_with_trailing_partial_sample", "regime:file_listed_twice", "regime:relative_names_then_chdir", "giant_stream_ops", "regime:members_not_in_time_order", "ops:seek_by_one_header_length"]
 
 
 def EXHAUSTIVE(tier):
@@ -79,6 +79,8 @@ def cases(tier, seed):
         if k % 7 == 5:     # a duplicated member needs nothing; keep at least one distinct neighbour half of the time
             nfiles = max(nfiles, 1 + k % 2)
         split = [int(rng.integers(1, 20)) for _ in range(nfiles)]
+        if k % 8 == 6:     # data sections longer than a header (so that "one header length ahead" is a position inside the data)
+            split = [int(rng.integers(150, 400)) for _ in range(nfiles)]
         yield {"kind": "random", "nbits": nbits, "nchans": nch, "split": split, "hseed": int(seed) * 100003 + k, "n": 8, "len": hlen,
                "contig": bool(k % 5 != 4), "ragged": k % 3 == 2, "dup": k % 7 == 5, "relchdir": k % 7 == 3}
     yield {"kind": "giant", "seed": int(seed)}
@@ -164,6 +166,7 @@ def run_history(ctx, hdr_sinfo, nbits, model, bounds, ops, case_rec):
     pos = 0
     touched = set()
     crossing = False
+    held = []
     ctx.evaluated()
 
     def fileof(p):
@@ -219,6 +222,7 @@ def run_history(ctx, hdr_sinfo, nbits, model, bounds, ops, case_rec):
                 seg = model[pos : pos + nbytes]
                 want = sigfile.unpack_bits(seg, nbits, sigfile.default_order(nbits)).tobytes() if per > 1 else seg
                 ctx.count("content_checks")
+                held.append((out, want))
                 if np.asarray(out).tobytes() != want or (per == 1 and np.asarray(out).dtype.itemsize != isz):
                     return viol("cread-content", f"step {step}: cread({arg}) at {pos} returned {np.asarray(out).tobytes()[:24].hex()} want {want[:24].hex()}",
                                 got_len=int(np.asarray(out).size), want_len=len(want) // (isz if per == 1 else 1))
@@ -268,6 +272,11 @@ def run_history(ctx, hdr_sinfo, nbits, model, bounds, ops, case_rec):
                 ctx.count("regime:position_exactly_at_boundary")
             if got != pos:
                 return viol(f"position-after-{name}", f"step {step}: after {name}({arg}) reader reports position {got}, model {pos}", ops_done=step + 1)
+        # arrays returned by earlier counted reads are the caller's: later reads must not have changed them
+        ctx.count("held_result_checks", len(held))
+        for i, (arr, wantb) in enumerate(held):
+            if np.asarray(arr).tobytes() != wantb:
+                return viol("cread-result-changed-by-later-reads", f"the array returned by counted read #{i} of this history no longer holds its slice of the stream after later reads")
     finally:
         try:
             rd.close()
@@ -443,13 +452,22 @@ def run_case(case, ctx):
         rd0.close()
         T = len(model)
         isz = {16: 2, 32: 4}.get(nbits, 1)
+        hlen0 = sigfile.parse_file(paths[0])[1]
         try:
             for h in ([case["only"]] if "only" in case else range(case["n"])):
                 rng = np.random.default_rng([case["hseed"], h])
                 ops, pos = [], 0
                 for _ in range(case["len"]):
                     r = rng.random()
-                    if r < 0.2:
+                    if r < 0.06 and pos + hlen0 < T and (pos + hlen0) % isz == 0:
+                        # exactly one header length ahead of the current data position (an absolute file offset and a data offset must not be confused)
+                        if rng.random() < 0.5:
+                            ops.append(("ss", pos + hlen0))
+                        else:
+                            ops.append(("sc", hlen0))
+                        pos += hlen0
+                        ctx.count("ops:seek_by_one_header_length")
+                    elif r < 0.2:
                         o = int(rng.integers(0, T // isz)) * isz if rng.random() < 0.7 or not bounds else int(rng.choice(bounds))
                         ops.append(("ss", o)); pos = o
                     elif r < 0.4:
